@@ -166,3 +166,14 @@ package parser
 //@   assumed requires
 //@   requires node != nil && node.Line >= 1 && node.Column >= 1 && minColumn >= 1
 //@   ensures result != nil && result.Value != nil && len(result.Value.Pos) >= 1
+
+// ---------------------------------------------------------------------------------------------
+// C03 / C20: kind and name of a rule as pure functions of its parsed content.
+//@ spec func ruleType(r Rule) RuleType = r.AlertingRule != nil ? AlertingRuleType : (r.RecordingRule != nil ? RecordingRuleType : InvalidRuleType)
+//@ spec func ruleName(r Rule) string = r.RecordingRule != nil ? r.RecordingRule.Record.Value : (r.AlertingRule != nil ? r.AlertingRule.Alert.Value : "")
+//@ func Rule.Type [C03]
+//@   pure
+//@   ensures result == ruleType(r)
+//@ func Rule.Name [C03]
+//@   pure
+//@   ensures result == ruleName(r)
